@@ -7,6 +7,7 @@ import Driver.Decode
 import Driver.FilterEng
 import Driver.CacheEng
 import Driver.TreeEng
+import Driver.CtrlEng
 open Driver
 
 partial def loopFilter (h : IO.FS.Stream) (out : IO.FS.Stream) (univ : List KC.Obj) : IO Unit := do
@@ -44,12 +45,25 @@ partial def loopTree (h : IO.FS.Stream) (out : IO.FS.Stream) (st : TState) : IO 
     out.putStrLn "bad parse"
     loopTree h out st
 
+partial def loopCtrl (h : IO.FS.Stream) (out : IO.FS.Stream) (st : KState) : IO Unit := do
+  let line ← h.getLine
+  if line.isEmpty then return ()
+  match parseLine line with
+  | some e =>
+    let (st', o) := ctrlLine st e
+    out.putStrLn o
+    loopCtrl h out st'
+  | none =>
+    out.putStrLn "bad parse"
+    loopCtrl h out st
+
 def main (args : List String) : IO UInt32 := do
   let stdin ← IO.getStdin
   let stdout ← IO.getStdout
   match args with
   | ["filter"] => loopFilter stdin stdout []; return 0
   | ["cache"] => loopCache false stdin stdout {}; return 0
+  | ["ctrl"] => loopCtrl stdin stdout {}; return 0
   | ["tree"] => loopTree stdin stdout {}; return 0
   | ["cache-events"] => loopCache true stdin stdout {}; return 0
   | _ => IO.eprintln "usage: kdriver <filter|cache>"; return 2
